@@ -167,6 +167,9 @@ def main():
                     raise SystemExit("selftest: no generator for parameter type %r of %s" % (t, spec["func"]))
             for key in ranges:
                 proofs.append("(by decide)")
+            if spec["func"] == "bcdTointConvert":
+                pyargs[0] = abs(pyargs[0]) % (1 << 40)          # the Python loop never ends on a negative argument
+                leanargs[0] = lean_int(pyargs[0])
             if spec["func"] == "endianness_swap":
                 pyargs[1] = rng.choice([2, 2, 4, 4, 0, 1, 3, -2, -4, 8, rand_int(rng)])
                 leanargs[1] = lean_int(pyargs[1])
